@@ -12,6 +12,7 @@ import (
 )
 
 //verif:bounds C20 HC20_handler: decideHandler / writeError / writeJSON extracted from httpClient/main.go on every run (gin.Context replaced by a recording stand-in whose ShouldBindJSON either fails or delivers the harness request), over the real MakeDecision with the service registries: every method x (no bias | one bias variant) valid request, a binding failure, and each documented constraint violated one at a time with the offending NUMBER symbolic over the whole violating region (weights, k, thresholds, ratios, coefficients, ranges, scalings) or the offending NAME / id concrete; obligation: exactly one response per request, 200 with a ranking or 400 with error and the echoed request, and every violated constraint is answered 400
+//verif:bounds C20 HC20_rejects: each of the enumerated constraint violations (offending number symbolic over the violating region) is answered 400 and never with a ranking; a valid request of the same method and bias kind served before and after the rejected one is answered 200 with the same body, and the rejected request performs no store into registry objects (sequence clause: rejected request, then valid request)
 //verif:bounds C20 HC20_terminates_electre: ELECTRE III requests (A<=3, K=1, concrete values) with a SYMBOLIC custom distillation function (a, b unconstrained in [-2,2]): no path may exhaust the call-depth / loop / step budget; a budget hit is replayed natively under a timeout and a stack limit
 //verif:bounds C20 HC20_series_progress_fp: bit-precise (IEEE-754): for every coefficient the validators ACCEPT (0 < c < 1) and every level reachable in a generated series, one update must change the level - otherwise the heuristic loops forever on that request
 //verif:outside C20: malformed JSON, the JSON binding and encoding themselves (encoding/json, gin), the HTTP status on the wire, encoding failures for non-finite results, the text of error messages (so 'the message lists the available names' is not checked), process liveness beyond 'no fatal path within the bounds', and GET /api/preferenceFunctions (reflection-based jsonschema; outside what the symbolic executor models) - these parts of the statement are not decided by this technique
@@ -79,7 +80,7 @@ var c20violations = []string{
 	"unknown-reference-points", "unknown-applier", "unknown-draw-resolution", "unknown-reference-criterion-type",
 	"duplicate-criterion", "inverted-range", "empty-range", "missing-value", "missing-weight", "missing-weights-param", "missing-electre-criterion", "missing-threshold-value",
 	"choquet-weight-above-1", "choquet-weight-below-0", "choquet-cost-criterion", "choquet-missing-capacity",
-	"electre-k-not-positive", "electre-p-not-above-q", "electre-v-not-above-p",
+	"electre-k-not-positive", "electre-p-not-above-q", "electre-v-not-above-p", "electre-distillation-negative",
 	"omission-ratio-out-of-range", "reversal-ratio-out-of-range", "mixing-ratio-out-of-range", "max-below-min",
 	"inc-coefficient-out-of-range", "dec-coefficient-out-of-range", "inc-min-out-of-range", "dec-max-out-of-range",
 	"bounding-scaling-zero", "concealment-scaling-zero", "unknown-alternative", "unknown-current-choice", "no-anchoring-alternatives", "unknown-anchoring-alternative", "owa-weight-count",
@@ -98,6 +99,13 @@ func c20violate(v string) *model.DecisionMaker {
 	case "unknown-method":
 		dm := c20valid("weightedSum", "")
 		dm.PreferenceFunction = "noSuchMethod"
+		return dm
+	case "electre-distillation-negative":
+		// s(x) = a*x + b negative somewhere on [0,1] (rejected since the repair of the non-terminating distillation)
+		dm := c20valid("electreIII", "")
+		a, b := rt.FloatIn("distillation.a", -2, 2), rt.FloatIn("distillation.b", -2, 2)
+		rt.Assume(rt.Or(b < 0, a+b < 0))
+		mp(dm)["electreDistillation"] = map[string]interface{}{"a": a, "b": b}
 		return dm
 	case "empty-method":
 		dm := c20valid("weightedSum", "")
@@ -294,12 +302,60 @@ func c20violate(v string) *model.DecisionMaker {
 	panic("unknown violation " + v)
 }
 
-//verif:harness HC20_rejects mode=REAL reach=rejected
+// c20baseOf: the registered method and bias variant a (possibly invalid) request is built on ("" if the method name itself is the violation)
+func c20baseOf(dm *model.DecisionMaker) (string, string) {
+	method := ""
+	for _, m := range Methods {
+		if m == dm.PreferenceFunction {
+			method = m
+		}
+	}
+	variant := ""
+	if len(dm.Biases) > 0 {
+		if b, ok := dm.Biases[0].(map[string]interface{}); ok {
+			name, _ := b["name"].(string)
+			for _, n := range BiasNames {
+				if n == name {
+					variant = n
+				}
+			}
+			if variant == "anchoring" {
+				if props, ok := b["props"].(map[string]interface{}); ok {
+					if ap, ok := props["applier"].(map[string]interface{}); ok && ap["function"] == "newCriterion" {
+						variant = "anchoring/newCriterion"
+					}
+				}
+			}
+		}
+	}
+	if method == "owa" && AddsCriterion(variant) {
+		variant = "" // known finding: owa with a criterion-adding bias is not answered 200
+	}
+	return method, variant
+}
+
+//verif:harness HC20_rejects mode=REAL reach=rejected,served-after-rejection fatal=violation
 func HC20_rejects() {
 	v := rt.OneOf("violation", c20violations...)
 	rt.SetDrawMode(1)
 	dm := c20violate(v)
+	// a valid request of the same method (and bias kind) is served before and after the rejected one
+	method, variant := c20baseOf(dm)
+	var before *FakeContext
+	if method != "" {
+		before = c20serve(c20valid(method, variant), nil)
+	}
+	rt.Epoch()
 	c := c20serve(dm, nil)
+	rt.Assert("C20.rejected-request-leaves-nothing-behind", rt.SharedWrites() == 0)
+	if before != nil && c20is200(before) {
+		after := c20serve(c20valid(method, variant), nil)
+		rt.Assert("C20.later-valid-request-still-answered-200", c20is200(after))
+		if c20is200(after) {
+			rt.Reach("served-after-rejection")
+			rt.Assert("C20.later-valid-request-answered-as-before", rt.DeepEqual(before.Calls[0].Body, after.Calls[0].Body))
+		}
+	}
 	rt.Assert("C20.exactly-one-response", len(c.Calls) == 1)
 	rt.Assert("C20.violated-constraint-is-answered-400:"+v, c20is400(c))
 	rt.Assert("C20.violated-constraint-is-never-answered-with-a-ranking", !c20is200(c))
